@@ -38,6 +38,8 @@ fn main() {
             }
         }
         Some("replay") if args.len() >= 3 => checks::replay(&args[2]),
+        // child of the C18 check: C-ABI calls with invalid parameters, isolated in their own process
+        Some("c18-child") => checks::ffi::c18_child_main(),
         _ => usage(),
     };
     std::process::exit(code);
